@@ -277,6 +277,7 @@ def run(args):
                      'class = shape keys of each element; non-trivial = element found and judged')
     n = int((300 if args.tier == 'quick' else 15000) * args.scale)
     cases = [(args.seed, i) for i in range(n)]
+    cases = core.replay_cases(args, cases)
     B = 6
     batches = [cases[k:k + B] for k in range(0, len(cases), B)]
     harness = []
